@@ -42,7 +42,7 @@ MODULES = {
 }
 
 DEFAULT_TIME = {"quick": 150, "thorough": 1500}
-NSHARDS = {"quick": 1, "thorough": 16}
+NSHARDS = {"quick": 4, "thorough": 16}      # quick: four independent seeds side by side (same wall clock on this 16-core box)
 
 
 class Violation(Exception):
